@@ -60,12 +60,80 @@ def sym_groups(tier, seed):
                    "calls": [call(4, I, J, extent_choices(I, J, rng, 4)[1]) for (I, J) in rng.sample(pats + big, 25)]})
     return groups
 
+# ---------------------------------------------------------------------------------------------------
+# real element types (harness/einsum_real.h): the float / double / integer specialisations of is_vectorisable (SIMD
+# stride per element type), the intrinsic back ends (_dyadic, _inner, _matmul per ISA), the CONTRACT_OPT loop variants
+# and the C++14 / C++17 index tables are only reachable with the real types; exact small-integer data against a naive
+# Einstein sum.
+RP_GENERAL = [((0, 1), (2, 1, 3)), ((0, 1, 2), (0, 1, 3)), ((1, 0), (1, 2)), ((0, 1), (0, 2)), ((0, 1, 2), (3, 1, 4)), ((0,), (1, 0, 2)),
+              ((0, 1), (2, 3)), ((0,), (1, 2)), ((0, 1), (2,)), ((0, 1, 2), (2, 3)), ((0, 1), (2, 0, 1, 3)), ((0, 1, 2), (1, 3)), ((0, 1), (1, 2, 3)),
+              ((0, 0), (1,)), ((0,), (1, 1, 2)), ((0, 1, 1), (2, 0)), ((0, 1, 2, 3), (1, 3, 4))]
+RP_REDUCE = [((0, 1), (2, 1)), ((0, 1, 2), (3, 2)), ((0, 1), (0, 1)), ((0, 1, 2), (0, 1, 2)), ((0, 1), (1, 0)), ((0, 1, 2), (1, 2)), ((0, 1, 2), (2, 1)),
+             ((0,), (0,)), ((0, 1), (1,)), ((0,), (0, 1)), ((0, 1), (0,)), ((0,), (1, 0)), ((0, 1), (1, 2)), ((0, 1, 2), (2, 3, 4)), ((0, 1, 2), (1, 2, 3))]
+LASTS = {"float": [2, 3, 4, 5, 6, 8, 12, 16, 20], "double": [2, 3, 4, 5, 6, 8, 10, 12], "int32_t": [2, 3, 4, 6, 8, 9, 16], "int64_t": [2, 3, 4, 6, 8]}
+
+def real_cells(tier):
+    if tier == "quick":
+        return [("sse2", "c++14", None), ("avx2", "c++17", -1), ("avx512", "c++14", 1), ("avx2", "c++14", None), ("sse2", "c++17", -1), ("avx512", "c++17", None)]
+    return [(isa, std, co) for isa in core.ALL_ISAS for std in ("c++14", "c++17") for co in (None, 1, -1)]
+
+def real_groups(tier, seed):
+    rng = random.Random(seed * 4099 + 7)
+    cs = lambda t: " VFC ".join(str(x) for x in t)
+    groups = []
+    for ci, (isa, std, co) in enumerate(real_cells(tier)):
+        types = ["float", "double"] + (["int32_t", "int64_t"] if (tier != "quick" or ci % 3 == 0) else [])
+        for t in types:
+            calls = []
+            def add(I, J, ext):
+                tot = 1
+                for nm in set(I) | set(J): tot *= ext[nm]
+                if tot <= 4000:
+                    calls.append("EINSUM_REAL(%s, %s, %s, %s, %s, %du);" % (t, cs(I), cs(J), cs([ext[i] for i in I]), cs([ext[j] for j in J]), seed * 31 + len(calls)))
+            lasts = LASTS[t]
+            npat = 6 if tier == "quick" else len(RP_GENERAL)
+            for (I, J) in rng.sample(RP_GENERAL, npat):
+                for L in (rng.sample(lasts, 3) if tier == "quick" else lasts):
+                    ext = {nm: rng.choice([2, 3, 4, 5]) for nm in set(I) | set(J)}
+                    ext[J[-1]] = L                      # the extent that decides the SIMD type / stride of the loop nest
+                    if rng.random() < 0.5: ext[I[-1]] = ext.get(I[-1]) if I[-1] == J[-1] else rng.choice(lasts)
+                    add(I, J, ext)
+            for (I, J) in (rng.sample(RP_REDUCE, 5) if tier == "quick" else RP_REDUCE):
+                for rep in range(1 if tier == "quick" else 3):
+                    ext = {nm: rng.choice([2, 3, 4, 5, 8]) for nm in set(I) | set(J)}
+                    ext[J[-1]] = rng.choice(lasts)
+                    add(I, J, ext)
+            # intrinsic back ends with size-specific kernels: _dyadic (1,2,3,4 per side), inner, outer of matrices
+            for n in ([1, 2, 3, 4] if tier != "quick" else rng.sample([1, 2, 3, 4], 2)):
+                calls.append("EINSUM_REAL(%s, 0, 1, %d, %d, %du);" % (t, n, n, seed + n))
+                if n > 1:       # outer(Tensor<T,1>,Tensor<T,1>) is an ambiguous overload in the library (rejected at compile time)
+                    calls.append("OUTER_REAL(%s, %d, %d, %du);" % (t, n, n, seed + n))
+            for (da, db) in ([(2, 3), (3, 2), (4, 2), (5, 7)] if tier != "quick" else [rng.choice([(2, 3), (3, 2), (4, 2), (5, 7)])]):
+                calls.append("OUTER_REAL(%s, %d, %d, %du);" % (t, da, db, seed))
+            for m in ([2, 3] if tier != "quick" else [rng.choice([2, 3])]):
+                calls.append("OUTER_REAL(%s, %d VFC %d, %d VFC %d, %du);" % (t, m, m, m, m, seed))
+            for n in (rng.sample(range(1, 20), 3) if tier == "quick" else range(1, 36)):
+                calls.append("INNER_REAL(%s, %d, %du);" % (t, n, seed + n))
+            calls.append("INNER_REAL(%s, %d VFC %d, %du);" % (t, rng.choice([2, 3, 4]), rng.choice([2, 3, 4, 5]), seed))
+            L = rng.choice(lasts)
+            calls.append("EINSUM1_REAL(%s, 0 VFC 0 VFC 1, 3 VFC 3 VFC %d, %du);" % (t, L, seed))
+            calls.append("EINSUM1_REAL(%s, 0 VFC 1 VFC 0, 3 VFC %d VFC 3, %du);" % (t, L, seed))
+            calls.append("EINSUM1_REAL(%s, 0 VFC 0, %d VFC %d, %du);" % (t, L, L, seed))
+            if std == "c++17":      # the explicit-output form is a C++17 feature of the library (it does not compile as C++14)
+                calls.append("EINSUMX_REAL(%s, 0 VFC 1, 1 VFC 2, 2 VFC 0, 3 VFC 4, 4 VFC %d, %du);" % (t, L, seed))
+                calls.append("EINSUMX_REAL(%s, 0 VFC 1, 2 VFC 1 VFC 3, 3 VFC 0 VFC 2, 3 VFC 4, 5 VFC 4 VFC %d, %du);" % (t, L, seed))
+                calls.append("EINSUMX_REAL(%s, 0 VFC 1 VFC 2, 3 VFC 1, 0 VFC 3 VFC 2, 2 VFC 3 VFC %d, 5 VFC 3, %du);" % (t, L, seed))
+            defs = ["-DCONTRACT_OPT=%d" % co] if co is not None else []
+            groups.append({"key": "%s/%s/co%s/%s" % (isa, std, co, t), "header": "einsum_real.h", "isa": isa, "std": std, "opt": "-O2", "defs": defs, "calls": calls})
+    return groups
+
 def run(tier, seed):
     return flow.standard_run(
-        PID, tier, seed, "Fastor.C03.loopnest_correct", "FastorModel.Model.Einsum", sym_groups, None,
+        PID, tier, seed, "Fastor.C03.loopnest_correct", "FastorModel.Model.Einsum", sym_groups, real_groups,
         assumptions=["no index occurs more than twice in the concatenated index lists (the property's precondition)",
                      "exact symbolic data; the rounding clause of the property is not a theorem",
-                     "Voigt overloads and CONTRACT_OPT variants other than the default are not modelled"],
+                     "Voigt overloads are not covered; CONTRACT_OPT variants other than the default, single-tensor einsum, explicit-output einsum, outer and inner "
+                     "are not modelled in Lean: they are covered by exact real-type value runs against a naive Einstein sum (every ISA family x C++14/17 x CONTRACT_OPT in {unset,1,-1})"],
         rule="every labelling of ranks (1,1),(1,2),(2,1),(2,2) with each label at most twice (all ways of identifying indices between and within the "
              "operands) and a seeded sample of ranks up to (3,3) [(4,3) thorough], two extent assignments each (one with a vectorisable last extent); "
              "non-trivial = dispatches to the general loop nest or a gemm-type re-route",
